@@ -71,7 +71,7 @@ func encode(s []uint16, unescaped *[128]bool) (r []uint16, ok bool) {
 		if k == strLen { // 4.a
 			return r, true
 		}
-		c := s[k]               // 4.b
+		c := s[k]             // 4.b
 		if in(unescaped, c) { // 4.c
 			r = append(r, c)
 		} else { // 4.d
@@ -177,7 +177,7 @@ func decode(s []uint16, reserved *[128]bool) (r []uint16, ok bool) {
 			if !okh {
 				return nil, false
 			}
-			k += 2               // v
+			k += 2           // v
 			if b&0x80 == 0 { // vi
 				cc := uint16(b)
 				if !in(reserved, cc) {
@@ -193,8 +193,8 @@ func decode(s []uint16, reserved *[128]bool) (r []uint16, ok bool) {
 				if n == 1 || n > 4 { // 2
 					return nil, false
 				}
-				octets := []byte{byte(b)}    // 3-4
-				if k+3*(n-1) >= strLen { // 5
+				octets := []byte{byte(b)} // 3-4
+				if k+3*(n-1) >= strLen {  // 5
 					return nil, false
 				}
 				for j := 1; j < n; j++ { // 6-7
